@@ -348,14 +348,16 @@ pub(crate) fn serve(_args: &[String]) -> i32 {
             Ok(v) => v,
             Err(e) => {
                 let mut o = stdout.lock();
-                let _ = writeln!(o, "{}", serde_json::json!({"harness_error": e.to_string()}));
+                let _ = writeln!(o, "\n@@VERIF-RESULT@@{}", serde_json::json!({"harness_error": e.to_string()}));
                 let _ = o.flush();
                 continue;
             }
         };
         let res = run_scenario(&sc);
         let mut o = stdout.lock();
-        let _ = writeln!(o, "{}", res);
+        // Anything the code under test prints straight to stdout (e.g. with
+        // `:trace` on) is not a result line; results carry this marker.
+        let _ = writeln!(o, "\n@@VERIF-RESULT@@{}", res);
         let _ = o.flush();
     }
     0
